@@ -105,19 +105,47 @@ impl<S: Strategy<T>> World<S> {
     }
 }
 
-fn put<X>(v: &mut Vec<Option<X>>, i: usize, x: X) -> Option<X> {
+/// Kind tag of a register file (for the hand-over events of the happens-before monitor).
+pub trait RegKind {
+    const K: &'static str;
+}
+impl<S: Strategy<T>> RegKind for Guard<T, S> {
+    const K: &'static str = "g";
+}
+impl RegKind for T {
+    const K: &'static str = "h";
+}
+impl<S: Strategy<T>> RegKind for Cache<Cont<S>, T> {
+    const K: &'static str = "x";
+}
+impl<S: Strategy<T>> RegKind for Cont<S> {
+    const K: &'static str = "c";
+}
+
+/// Registers are shared between the logical threads: storing into one and using it from another
+/// thread is a user-level hand-over (a channel, a join ...), i.e. a happens-before edge.
+fn put<X: RegKind>(v: &mut Vec<Option<X>>, i: usize, x: X) -> Option<X> {
     while v.len() <= i {
         v.push(None);
     }
+    sched::log(json!({"e": "put", "t": sched::tid() as i64, "k": X::K, "r": i as i64}));
     v[i].replace(x)
 }
 
-fn take<X>(v: &mut Vec<Option<X>>, i: usize) -> Option<X> {
+fn take<X: RegKind>(v: &mut Vec<Option<X>>, i: usize) -> Option<X> {
     if i < v.len() {
-        v[i].take()
+        let r = v[i].take();
+        if r.is_some() {
+            used(X::K, i);
+        }
+        r
     } else {
         None
     }
+}
+
+fn used(k: &str, i: usize) {
+    sched::log(json!({"e": "use", "t": sched::tid() as i64, "k": k, "r": i as i64}));
 }
 
 pub fn val_id(v: &T) -> i64 {
@@ -234,6 +262,7 @@ fn mk_src<S: Strategy<T>>(w: &Arc<Mutex<World<S>>>, s: &Src, parent: i64) -> T {
         Src::New { pd } => Some(VPtr::alloc(parent, *pd)),
         Src::H(h) => {
             // take a non-counted alias under the lock, clone it (a scheduling point) outside
+            used("h", *h);
             let alias: Option<T> = {
                 let g = wl(w);
                 g.handles.get(*h).and_then(|x| x.as_ref()).map(|v| match v {
@@ -255,7 +284,11 @@ fn mk_src<S: Strategy<T>>(w: &Arc<Mutex<World<S>>>, s: &Src, parent: i64) -> T {
 }
 
 fn cont<S: Strategy<T>>(w: &Arc<Mutex<World<S>>>, c: usize) -> Option<Cont<S>> {
-    wl(w).conts.get(c).and_then(|x| x.clone())
+    let r = wl(w).conts.get(c).and_then(|x| x.clone());
+    if r.is_some() {
+        used("c", c);
+    }
+    r
 }
 
 thread_local! {
@@ -386,6 +419,7 @@ where
         Op::DerefG { g } => {
             let gd = wl(w);
             if let Some(Some(guard)) = gd.guards.get(*g) {
+                used("g", *g);
                 let v: &T = guard;
                 deref_log("g", *g, v);
             }
@@ -393,6 +427,7 @@ where
         Op::DerefH { h } => {
             let gd = wl(w);
             if let Some(Some(v)) = gd.handles.get(*h) {
+                used("h", *h);
                 deref_log("h", *h, v);
             }
         }
@@ -438,6 +473,7 @@ where
                     res = cont.compare_and_swap(std::ptr::null_mut::<crate::vptr::Obj>(), val);
                 }
                 Cur::H(h) | Cur::RawMut(h) | Cur::RawConst(h) => {
+                    used("h", *h);
                     let hv: T = {
                         let gd = wl(w);
                         match gd.handles.get(*h).and_then(|x| x.as_ref()) {
@@ -603,6 +639,7 @@ where
         }
         Op::Wait { t } => {
             sched::wait_for(*t);
+            sched::log(json!({"e": "join", "t": sched::tid() as i64, "u": *t as i64}));
         }
         Op::SetGen { back } => {
             // wraps to 0 after `back` more helping transactions
